@@ -21,6 +21,21 @@ CODECS = ['ber', 'der', 'per', 'uper', 'oer', 'jer', 'xer', 'gser', 'type_checke
 POST_COPY = ('set_default', 'set_tag', 'set_size_range', 'set_restricted_to_range')
 
 
+def _first_self_attr(e):
+    """For an expression rooted at self with at least one attribute hop (self.a, self.a.b, self.a[0].c):
+    the first attribute name; else None."""
+    first = None
+    while True:
+        if isinstance(e, ast.Attribute):
+            if isinstance(e.value, ast.Name) and e.value.id == 'self':
+                return e.attr
+            e = e.value
+        elif isinstance(e, (ast.Subscript, ast.Call)):
+            e = e.value if isinstance(e, ast.Subscript) else e.func
+        else:
+            return None
+
+
 def check(ctx):
     model = ctx.model
     ctx.rule('C19.R1a', 'compilers configure only owned (constructed or copied) compiled objects')
@@ -73,15 +88,14 @@ def check(ctx):
                         tg = s.targets if isinstance(s, ast.Assign) else [s.target]
                         for t in tg:
                             if isinstance(t, (ast.Attribute, ast.Subscript)):
-                                inner = t.value
-                                if isinstance(inner, ast.Attribute) and isinstance(inner.value, ast.Name) and inner.value.id == 'self':
-                                    deep.append((inner.attr, ast.unparse(t)))
+                                a1 = _first_self_attr(t.value)
+                                if a1:
+                                    deep.append((a1, ast.unparse(t)))
                     if isinstance(s, ast.Expr) and isinstance(s.value, ast.Call) and isinstance(s.value.func, ast.Attribute):
                         fn = s.value.func
-                        recv = fn.value
-                        if isinstance(recv, ast.Attribute) and isinstance(recv.value, ast.Name) and recv.value.id == 'self' \
-                                and (fn.attr.startswith('set_') or fn.attr in ('append', 'extend', 'update', 'insert', 'pop', 'clear', 'remove')):
-                            deep.append((recv.attr, ast.unparse(fn) + '()'))
+                        a1 = _first_self_attr(fn.value)
+                        if a1 and (fn.attr.startswith('set_') or fn.attr in ('append', 'extend', 'update', 'insert', 'pop', 'clear', 'remove', 'add', 'setdefault')):
+                            deep.append((a1, ast.unparse(fn) + '()'))
                     for attr, what in deep:
                         if attr in rebound and rebound[attr] < s.lineno:
                             continue
@@ -198,28 +212,11 @@ def check(ctx):
 
 BER = 'asn1tools/codecs/ber.py'
 MUTANTS = [
-    dict(name='compile_member: one copy for optional/default, none for size', file=BASE, quick=True,
-         old="""        if 'optional' in member:
-            compiled_member = self.copy(compiled_member)
-            compiled_member.optional = member['optional']
-
-        if 'default' in member:
-            compiled_member = self.copy(compiled_member)
-            compiled_member.set_default(member['default'])
-
-        if 'size' in member:
+    dict(name='compile_member: size configured without its own copy', file=BASE, quick=True,
+         old="""        if 'size' in member:
             compiled_member = self.copy(compiled_member)
             compiled_member.set_size_range""",
-         new="""        if 'optional' in member or 'default' in member:
-            compiled_member = self.copy(compiled_member)
-
-        if 'optional' in member:
-            compiled_member.optional = member['optional']
-
-        if 'default' in member:
-            compiled_member.set_default(member['default'])
-
-        if 'size' in member:
+         new="""        if 'size' in member:
             compiled_member.set_size_range""", expect='C19.R1a'),
     dict(name='ber compile_type sets the tag without copying', file=BER, quick=True,
          old="""        if 'tag' in type_descriptor:
@@ -227,20 +224,29 @@ MUTANTS = [
             tag = type_descriptor['tag']""",
          new="""        if 'tag' in type_descriptor:
             tag = type_descriptor['tag']""", expect='C19.R1a'),
-    dict(name='per set_size_range writes through element_type', file='asn1tools/codecs/per.py', quick=True,
+    dict(name='per set_size_range writes through a shared attribute', file='asn1tools/codecs/per.py', quick=True,
          old="""    def set_size_range(self, minimum, maximum, has_extension_marker):
         self.minimum = minimum
         self.maximum = maximum
         self.has_extension_marker = has_extension_marker
 
-        if is_unbound(minimum, maximum):""",
+        if is_unbound(minimum, maximum):
+            self.number_of_bits = None
+        else:
+            size = maximum - minimum""",
          new="""    def set_size_range(self, minimum, maximum, has_extension_marker):
         self.minimum = minimum
         self.maximum = maximum
         self.has_extension_marker = has_extension_marker
         self.permitted_alphabet.encode_map.update({})
 
-        if is_unbound(minimum, maximum):""", expect='C19.R1b'),
+        if is_unbound(minimum, maximum):
+            self.number_of_bits = None
+        else:
+            size = maximum - minimum""", expect='C19.R1b'),
+    dict(name='ExplicitTag.set_default without copying the inner type', file=BER,
+         old="""        self.inner = copy(self.inner)
+        self.inner.set_default(value)""", new="""        self.inner.set_default(value)""", expect='C19.R1b'),
     dict(name='lookup prefers imports over the own module', file=BASE,
          old="""        if name in module[section]:
             return module[section][name], module_name
